@@ -77,7 +77,7 @@ type c02Txn struct {
 
 func TestC02(t *testing.T) {
 	V.Rule("lab: (a) responses with 1-6 Via entries over 1-6 header lines (full/compact/odd-case names, ',' / ', ' joins), the entry beneath the top one naming a harness endpoint by IPv4 literal or host-table name (or an unresolvable name), transports UDP/TCP/udp/Tcp and unsupported TLS/SCTP/WS, port present or absent (5060), received / rport absent / valueless / numeric / non-numeric, maddr, ttl, unknown parameters in any order, malformed second entries, every status class, sent from backend and non-backend addresses; (b) rapid state-machine histories over 4 user agents (UDP and TCP ingress, own Via stacks of 1-3 entries, rport requested or not) and UDP/TCP backends answering outstanding transactions in any order, 1xx before final. Oracle: (a) reference model for the destination (received over sent-by host; numeric rport over sent-by port only with received; default 5060; unsupported transport, unresolvable host, no or undecodable remaining Via => nothing), exactly one reception there and nothing elsewhere after a FIFO barrier, remaining Via entries textually intact and in order; (b) the response arrives at the socket/connection the request came from with exactly the Via stack the user agent sent (first entry modulo received/rport). non-trivial = >= 3 Via entries in >= 2 lines, or received/rport present, or a drop case; for (b) >= 2 transactions open at once; distinct by message / history")
-	V.Require("same Via lines sent again", "relayed:udp", "relayed:tcp", "drop:unsupported transport", "drop:no remaining via", "drop:malformed via", "drop:unresolvable host", "received present", "rport numeric with received", "rport without received (ignored)", "port absent (5060)", ">=3 vias in >=2 lines", "history: >=2 transactions open", "history: answered out of order", "history: tcp ingress", "history: tcp backend")
+	V.Require("burst of requests answered", "same Via lines sent again", "relayed:udp", "relayed:tcp", "drop:unsupported transport", "drop:no remaining via", "drop:malformed via", "drop:unresolvable host", "received present", "rport numeric with received", "rport without received (ignored)", "port absent (5060)", ">=3 vias in >=2 lines", "history: >=2 transactions open", "history: answered out of order", "history: tcp ingress", "history: tcp backend")
 	svc, err := newStdSvc(stdVariant{NoReceived: [3]string{"", "true", ""}})
 	if err != nil {
 		V.HarnessError(t, "cannot start lab instance: %v", err)
@@ -458,5 +458,140 @@ func TestC02(t *testing.T) {
 			V.NonTrivial(strings.Join(hist, "|"))
 		}
 		V.SampleEvery(40, func() any { return hist })
+	})
+
+	// bursts: requests of several hops read from the socket before the earlier
+	// ones have been decoded; every response must still return to its own hop
+	rcheck(t, "bursts", V.N(40, 300), func(rt *rapid.T) {
+		entry := 0
+		l := s.in.cfg.Listens[entry]
+		k := rapid.IntRange(2, 30).Draw(rt, "requests")
+		type sent struct {
+			id  string
+			src *labEP
+		}
+		var plan []sent
+		var wires [][]byte
+		for i := 0; i < k; i++ {
+			ua := rapid.IntRange(0, 3).Draw(rt, "ua")
+			src := s.uas[ua]
+			if rapid.Bool().Draw(rt, "from6010") {
+				src = s.uas2[ua]
+			}
+			id := s.nextID("c02burst-")
+			// sent-by names another endpoint: only received/rport bring the response home
+			wire := fmt.Sprintf("OPTIONS sip:svc.test SIP/2.0\r\nVia: SIP/2.0/UDP %s:6010;branch=z9hG4bK%s;rport\r\nFrom: <sip:a@b>;tag=1\r\nTo: <sip:svc@nomatch.example>\r\nCall-ID: %s\r\nCSeq: 1 OPTIONS\r\nContent-Length: 0\r\n\r\n", s.ip(10+(ua+1)%4), id, id)
+			plan = append(plan, sent{id, src})
+			wires = append(wires, []byte(wire))
+			s.model.learnRequest(s.model.transport(entry, "udp"), src.ip, &AMsg{IsReq: true, Hdrs: []AHdr{{Kind: hVia, Vias: []AVia{{Host: s.ip(10 + (ua+1)%4)}}}}})
+		}
+		var desc []string
+		for _, p := range plan {
+			desc = append(desc, fmt.Sprintf("%s from %s:%d", p.id, p.src.ip, p.src.port))
+		}
+		V.Journal(t.Name()+"/bursts", desc)
+		s.in.expect(wires...)
+		for i, p := range plan {
+			p.src.sendUDP(l.Addr, l.UDPPort, wires[i])
+		}
+		collect := func(min int) []labRx {
+			var got []labRx
+			seen := map[*labEP]bool{}
+			for _, p := range plan {
+				if seen[p.src] {
+					continue
+				}
+				seen[p.src] = true
+				src := p.src
+				m := 0
+				if len(seen) == 1 {
+					m = min
+				}
+				rs, err := s.in.settle(func(b []byte) error { return src.sendUDP(l.Addr, l.UDPPort, b) }, m)
+				if _, lost := err.(labLost); lost {
+					failf(rt, "%v", err)
+				} else if err != nil {
+					V.HarnessError(rt, "%v", err)
+				}
+				got = append(got, labMessages(rs)...)
+			}
+			return got
+		}
+		atBackend := map[string]labRx{}
+		for _, r := range collect(k) {
+			id, _ := r.msg.First(hCallID)
+			if _, dup := atBackend[id]; dup {
+				failf(rt, "request %s of the burst reached two backends\nburst: %v", id, desc)
+			}
+			atBackend[id] = r
+		}
+		// the backends answer all of them at once
+		var resps [][]byte
+		type ans struct {
+			send func([]byte) error
+			wire []byte
+		}
+		var answers []ans
+		for _, p := range plan {
+			r, ok := atBackend[p.id]
+			if !ok {
+				failf(rt, "request %s of a burst of %d never reached a backend\nburst: %v", p.id, k, desc)
+			}
+			resp := buildResponse(r.msg, 200, "OK", "t", "")
+			resps = append(resps, resp)
+			if r.tcp != nil {
+				answers = append(answers, ans{r.tcp.send, resp})
+			} else {
+				pv, err := rVia(r.msg.Entries(hVia)[0])
+				if err != nil {
+					failf(rt, "top Via at the backend unreadable")
+				}
+				ep := r.ep
+				answers = append(answers, ans{func(b []byte) error { return ep.sendUDP(pv.Host, pv.Port, b) }, resp})
+			}
+		}
+		s.in.expect(resps...)
+		for _, a := range answers {
+			a.send(a.wire)
+		}
+		// barriers through every answering path
+		var got []labRx
+		first := true
+		seenB := map[string]bool{}
+		for i, p := range plan {
+			r := atBackend[p.id]
+			key := r.where()
+			if seenB[key] {
+				continue
+			}
+			seenB[key] = true
+			m := 0
+			if first {
+				m, first = k, false
+			}
+			rs, err := s.in.settle(answers[i].send, m)
+			if _, lost := err.(labLost); lost {
+				failf(rt, "%v", err)
+			} else if err != nil {
+				V.HarnessError(rt, "%v", err)
+			}
+			got = append(got, labMessages(rs)...)
+		}
+		V.Class("burst of requests answered")
+		V.NonTrivial(strings.Join(desc, "|"))
+		byID := map[string][]labRx{}
+		for _, r := range got {
+			id, _ := r.msg.First(hCallID)
+			byID[id] = append(byID[id], r)
+		}
+		for _, p := range plan {
+			rs := byID[p.id]
+			if len(rs) != 1 {
+				failf(rt, "the response to %s (sent from %s:%d inside a burst of %d) was relayed %d times, want once, to that hop\nburst: %v", p.id, p.src.ip, p.src.port, k, len(rs), desc)
+			}
+			if rs[0].ep != p.src || rs[0].tcp != nil {
+				failf(rt, "the response to %s, sent from %s:%d inside a burst of %d requests, returned to %s instead\nburst: %v", p.id, p.src.ip, p.src.port, k, rs[0].where(), desc)
+			}
+		}
 	})
 }
